@@ -141,6 +141,21 @@ func (g *Gen) Genesis() *GenesisCfg {
 			}
 		}
 	}
+	// a group of accounts with identical single delegations: equal reporting powers, exact ties
+	if r.Chance(0.6) && na >= 6 {
+		amt := Pick(r, []int64{1_000_000, 5_000_000, 123_000_000})
+		val := r.Intn(nv)
+		k := 2 + r.Intn(3)
+		for _, i := range r.Perm(na)[:k] {
+			var keep []GenDelegation
+			for _, d := range cfg.GenDelegations {
+				if d.Acct != i {
+					keep = append(keep, d)
+				}
+			}
+			cfg.GenDelegations = append(keep, GenDelegation{Acct: i, Val: val, Amount: amt})
+		}
+	}
 	cfg.MaxValidators = Pick(r, []uint32{100, 100, 100, uint32(max(2, nv-1)), uint32(nv)})
 	cfg.UnbondingSec = Pick(r, []int64{21 * 86400, 21 * 86400, 3 * 86400, 3600})
 	cfg.MinTrb = Pick(r, []int64{1_000_000, 1_000_000, 2_000_000, 10_000_000})
